@@ -116,14 +116,14 @@ Lemma nth_error_skipn0 {A} (l : list A) n : nth_error (skipn n l) 0 = nth_error 
 Proof. rewrite nth_error_skipn. f_equal. lia. Qed.
 
 Lemma class_ok_comment rest ch n :
-  nth_error rest 0 = Some ch -> 1 <= n -> (beq ch x2f = true -> 2 <= n) ->
+  nth_error rest 0 = Some ch -> 1 <= n -> (beq ch x23 = false -> 2 <= n) ->
   class_ok b_sqli_token_type_comment n (firstn (Z.to_nat n) rest) = true.
 Proof.
   intros N Hn Hs. destruct rest as [|b rest]; [discriminate|]. cbn in N. inversion N; subst b.
   unfold class_ok. replace (Z.to_nat n) with (S (Z.to_nat (n - 1))) by lia. cbn [firstn first_is].
-  destruct (beq ch x2f) eqn:E.
-  - specialize (Hs eq_refl). replace (1 <=? n) with true by lia. replace (2 <=? n) with true by lia. reflexivity.
+  destruct (beq ch x23) eqn:E.
   - replace (1 <=? n) with true by lia. reflexivity.
+  - specialize (Hs eq_refl). replace (1 <=? n) with true by lia. replace (2 <=? n) with true by lia. reflexivity.
 Qed.
 
 Lemma index_byte_head_ne l b c : nth_error l 0 = Some b -> beq b c = false -> index_byte l c <> 0.
@@ -132,16 +132,39 @@ Proof.
   cbn [index_byte]. rewrite E. destruct (index_byte l c <? 0) eqn:F; lia.
 Qed.
 
+Lemma index_byte_two_ne l b0 b1 c :
+  nth_error l 0 = Some b0 -> nth_error l 1 = Some b1 -> beq b0 c = false -> beq b1 c = false ->
+  index_byte l c = -1 \/ 2 <= index_byte l c.
+Proof.
+  destruct l as [|x [|y l]]; cbn [nth_error]; intros H0 H1 E0 E1; try discriminate.
+  inversion H0; inversion H1; subst. cbn [index_byte]. rewrite E0, E1.
+  pose proof (index_byte_range l c) as R.
+  destruct (index_byte l c <? 0) eqn:F; cbn; [left; reflexivity|]. right.
+  destruct (index_byte l c + 1 <? 0) eqn:G; lia.
+Qed.
+
+(* the comment lexers: the first byte is not a newline; unless it is '#', the second byte
+   exists and is not a newline either (the callers have seen "--") *)
 Lemma parse_eol_comment_spec s t0 ch :
   lex_pre s -> nth_error (input s) (Z.to_nat (pos s)) = Some ch ->
-  beq ch x0a = false -> beq ch x2f = false ->
+  beq ch x0a = false ->
+  (beq ch x23 = false ->
+   exists c1, nth_error (input s) (Z.to_nat (pos s + 1)) = Some c1 /\ beq c1 x0a = false) ->
   wp (parse_eol_comment s t0) (lex_post s).
 Proof.
-  intros Hpre N Hn Hsl. unfold lex_pre in Hpre. pose proof (len_nonneg (input s)) as Hlen.
+  intros Hpre N Hn H2. unfold lex_pre in Hpre. pose proof (len_nonneg (input s)) as Hlen.
   unfold parse_eol_comment. unfold slen in *.
   assert (N0 : nth_error (skipn (Z.to_nat (pos s)) (input s)) 0 = Some ch) by (rewrite nth_error_skipn0; exact N).
   pose proof (index_byte_head_ne _ _ x0a N0 Hn) as Hne.
-  wp_go; leaf; (eapply class_ok_comment; [exact N0|lia|congruence]).
+  assert (K : beq ch x23 = false ->
+              pos s + 2 <= len (input s) /\
+              (index_byte (skipn (Z.to_nat (pos s)) (input s)) x0a = -1 \/
+               2 <= index_byte (skipn (Z.to_nat (pos s)) (input s)) x0a)).
+  { intros Hh. destruct (H2 Hh) as (c1 & N1 & E1). split.
+    - apply nth_error_len in N1. unfold len. lia.
+    - eapply index_byte_two_ne; [exact N0| |exact Hn|exact E1].
+      rewrite nth_error_skipn. replace (Z.to_nat (pos s) + 1)%nat with (Z.to_nat (pos s + 1)) by lia. exact N1. }
+  wp_go; leaf; (eapply class_ok_comment; [exact N0|lia|intros Hh; specialize (K Hh); lia]).
 Qed.
 
 Lemma parse_hash_spec s t0 :
@@ -150,13 +173,23 @@ Lemma parse_hash_spec s t0 :
 Proof.
   intros Hpre N. unfold parse_hash. simp_st.
   destruct (has_flag _ _).
-  - eapply wp_conseq; [eapply parse_eol_comment_spec; [exact Hpre|exact N|reflexivity|reflexivity]|].
+  - eapply wp_conseq; [eapply parse_eol_comment_spec; [exact Hpre|exact N|reflexivity|discriminate]|].
     intros r. apply lex_post_from; simp_st; try reflexivity; lia.
   - unfold lex_pre in Hpre. pose proof (len_nonneg (input s)). wp_go. leaf.
 Qed.
 
 Ltac via_eol Hpre N :=
-  eapply wp_conseq; [eapply parse_eol_comment_spec; [exact Hpre|exact N|reflexivity|reflexivity]|];
+  eapply wp_conseq;
+  [ eapply parse_eol_comment_spec;
+    [ exact Hpre | exact N | reflexivity
+    | intros _;
+      match goal with
+      | H : nth_error (input _) (Z.to_nat (pos _ + 1)) = Some ?b, E : beq ?b x2d = true |- _ =>
+          exists b; split; [exact H|]; apply beq_eq in E; rewrite E; reflexivity
+      | H : nth_error (input _) (Z.to_nat (pos _ + 1)) = Some ?b, E : beq ?b x2d && _ = true |- _ =>
+          exists b; split; [exact H|]; apply andb_true_iff in E; destruct E as [E _]; apply beq_eq in E; rewrite E; reflexivity
+      end ]
+  | ];
   let r := fresh "r" in intros r; apply lex_post_from; simp_st; try reflexivity; lia.
 
 Lemma parse_dash_spec s t0 :
